@@ -8,16 +8,45 @@
 //!   over 13 atoms, every array and plain class name; through `remapper_a` and `remapper_b`; compared
 //!   with a reference walk of the JVMS grammar that replaces exactly the class names; then mapped
 //!   back with the opposite remapper (X→Y→X).
-//! * **malformed** — every string of length ≤ 5 over `L A ; [ I ( ) V /` as field, method, return
-//!   descriptor and array class name: `Err` or a shape-preserving answer, never a panic.
+//! * **names** (`c06/names.rs`) — one probe class whose name in every namespace runs through an alphabet of
+//!   34 name shapes (JDK/library packages, deep packages, descriptor letters, `L…`, `$`, `(`, `)`, `<>`,
+//!   2/3/4-byte characters, 64 and 302 characters): every ordered pair (N = 2) and triple (N = 3, quick:
+//!   of 11 core names), next to a plainly renamed neighbour class and next to a neighbour that carries the
+//!   same names the other way round (the two classes swap names) × every direction × every descriptor with ≤ 3 / ≤ 2 components and 3/255/256
+//!   dimensions; the member tables keyed by descriptors mentioning the probe, asked through owners that
+//!   declare, inherit and are absent; `map_method_ref` on array classes; and the remaining ways to obtain
+//!   a remapper (`remapper_a_first_to_second`, `remapper_b_first_to_second`, `ARemapperAsBRemapper`).
+//! * **malformed** — every string of length ≤ 5 (thorough 6) over `L A ; [ I ( ) V / é` and every string of
+//!   length 6 (thorough 7, 8) over `L A ; [ ( ) é` as field, method, return descriptor and array class
+//!   name: `Err` or a shape-preserving answer, never a panic.
 //! * **inherit** — every acyclic assignment of ordered super lists (length ≤ 2, or "unknown to the
 //!   provider") to four classes × every assignment of {absent, row variants} × {member undeclared /
 //!   declared with name variants} to the four classes; queries: every (owner, member) plus a wrong
 //!   descriptor and a wrong name; compared with the reference lookup of the statement; X→Y→X.
+//! * **shapes** (`c06/shapes.rs`) — what four classes cannot show: chains of depth ≤ 4 (6) with every class
+//!   absent / mapped / declaring the member / declaring an *overload* of it / both / declaring it under an
+//!   unchanged name; chains of up to 300 (1025) classes; owners with up to 5 (7) direct super types; combs
+//!   of super classes and interfaces.
 //! * **table** — one class with every ≤ 2-subset of four members with every partial row, a second
 //!   class in every row state, an inheriting third class; every (owner, name in any namespace,
-//!   descriptor in any namespace) query; the `*_ref` convenience methods; X→Y→X with the provider
-//!   renamed by the real `JarSuperProv::remap`.
+//!   descriptor in any namespace) query; the `*_ref` convenience methods for every owner; X→Y→X with the
+//!   provider renamed by the real `JarSuperProv::remap`.
+//!
+//! # Clauses of the statement → where they are decided
+//!
+//! | clause | decided by (oracle) | over |
+//! |---|---|---|
+//! | a class name maps to its counterpart | `desc::judge_desc` on `Tmpl::Obj` / `NT::Obj` with `gram::CMap` (row with a name in both namespaces ⇒ that name); `map_class`, `map_class_fail`, `map_class_any` must agree (`class:variants-disagree`) | desc: 7 slots × 4–5 states, N ∈ {2,3}, all directions; names: 34² pairs, 11³ (34³) triples; `remapper_a`, `remapper_b`, `*_first_to_second`, `ARemapperAsBRemapper` |
+//! | … or is left unchanged when unmapped | the same, `CMap::accepts` for names without a row / without a target name (`desc:*:unmapped-name-changed`) | slot `B`, absent slots, rows without a name in `to`; `java/lang/Object` next to mapped `java/…` names |
+//! | rewrites exactly the class names in field / method / return / array descriptors | `judge_desc`: per `L…;` segment the answer must be an accepted counterpart (`desc:<position>:<what>`), positions: field, param, return, array-*, arrayclass | desc: all descriptors ≤ 3 components over 13 atoms; names: ≤ 3 / ≤ 2 components over 6 atoms + 3/255/256 dimensions; array class names; `clone` references on array classes (`arrayref:*`) |
+//! | … preserving their shape | `judge_desc`: token sequence of the answer equals the input's except for names (`desc:*:shape-changed`); outside the grammar `Err` or `gram::strip` equal (`malformed-shape-changed`), no panic | as above + malformed sweep |
+//! | a member is mapped through the owner when it declares it | `member::judge_member` against `world::World::accepted` (`Ans::Found { class == owner }`) | table (all ≤ 2-subsets of 4 members × all rows), inherit, shapes, names |
+//! | … else through the nearest declaring super type in declaration order | `World::accepted`: depth-first in declaration order and nearest-first, entries without target name skipped or ending the search (4 readings); keys `member:wrong-name`, `member:inherited-name-not-applied`, `member:inherited-through-unmapped-owner`, … | inherit: all DAGs on 4 classes with ordered lists ≤ 2; shapes: depth ≤ 1024, ≤ 7 direct super types, combs, overloads on the way; names: owners absent from the mappings |
+//! | … falling back to the unchanged name with a remapped descriptor | `World::matches(Ans::Fallback)`: name bytes equal, descriptor ∈ `CMap::map_all`; `map_*_fail` = None must agree (`member:fail-variant-disagrees`) | every member engine: wrong name, wrong descriptor, descriptor of another namespace, no declaring type; array classes; `ARemapperAsBRemapper` |
+//! | X → Y → X is the identity on what is named injectively | `desc::judge_roundtrip` (`gram::roundtrip_safe` per name), `member::judge_member_roundtrip` (reference's own round trip is the identity under all readings) | every engine, opposite remapper built by the real code (provider renamed by `JarSuperProv::remap` in table) |
+//! | quantifier: partial rows, several namespaces, from ≠ first | generators | desc/table/inherit cell states absent/renamed/same; N = 3 in desc, names, inherit, table; floors `*from-not-first*` |
+//! | quantifier: nested arrays, names containing L, $, unicode, one character | generators | desc atoms; names alphabet (floors on JDK-looking, 3/4-byte, long names, 255 dimensions) |
+//! | quantifier: diamonds, missing intermediate classes, depth | generators | inherit (diamonds, unknown/absent classes), shapes (depth, width, absent fillers) |
 
 /// dispatch on the number of namespaces
 macro_rules! with_n {
@@ -38,6 +67,10 @@ mod world;
 mod desc;
 #[path = "c06/member.rs"]
 mod member;
+#[path = "c06/names.rs"]
+mod names;
+#[path = "c06/shapes.rs"]
+mod shapes;
 
 use std::collections::BTreeMap;
 use vcore::{json, Ctx, Stats, Value};
@@ -101,6 +134,10 @@ fn main() {
 	let t3 = ctx.elapsed_s();
 	let (tab, tab_bounds) = member::run_table(ctx);
 	let t4 = ctx.elapsed_s();
+	let (nam, nam_bounds) = names::run(ctx);
+	let t5 = ctx.elapsed_s();
+	let (shp, shp_bounds) = shapes::run(ctx);
+	let t6 = ctx.elapsed_s();
 
 	let n_floor = ctx.tier.pick(1_000, 10_000);
 	ctx.floor("descriptors in which at least two class names changed", n_floor, d.get("desc:two-or-more-names-changed"));
@@ -123,11 +160,42 @@ fn main() {
 	ctx.floor("table lookups answered by an inherited entry", n_floor, tab.get("table:found-in-super"));
 	ctx.floor("table lookups with a name of another namespace left unchanged", n_floor, tab.get("table:fallback"));
 
+	ctx.floor("malformed strings with a non-ASCII character judged", n_floor, mal.get("malformed:non-ascii-judged"));
+	ctx.floor("names: descriptors and class names judged", n_floor, nam.get("names:desc-judged"));
+	ctx.floor("names: mapped names in java/ packages that were rewritten", n_floor, nam.get("names:jdk-looking-name-rewritten"));
+	ctx.floor("names: names with three- or four-byte characters that were rewritten", n_floor, nam.get("names:three-or-four-byte-name-rewritten"));
+	ctx.floor("names: descriptors rewritten in sets where two classes swap their names", n_floor, nam.get("names:swapped-names-rewritten"));
+	ctx.floor("names: class names with unpaired surrogates that were rewritten", 100, nam.get("names:surrogate-name-rewritten"));
+	ctx.floor("names: members found in a class whose name has an unpaired surrogate", 10, nam.get("names:surrogate-member-found"));
+	ctx.floor("names: names of 300 and more characters that were rewritten", 100, nam.get("names:long-name-rewritten"));
+	ctx.floor("names: arrays of 255 dimensions rewritten", 100, nam.get("names:255-dimensions-rewritten"));
+	ctx.floor("names: lookups with a source namespace other than the first", n_floor, nam.get("names:desc-from-not-first"));
+	ctx.floor("names: members found whose class/descriptor key lies in a java/ package", 100, nam.get("names:member-found-jdk-looking-class"));
+	ctx.floor("names: … with a source namespace other than the first", 100, nam.get("names:member-found-jdk-looking-class-from-not-first"));
+	ctx.floor("names: members found in a super type", 1_000, nam.get("names:member-found-in-super"));
+	ctx.floor("names: *_ref variants compared", 1_000, nam.get("names:ref-variants-checked"));
+	ctx.floor("names: method references on array classes judged", 1_000, nam.get("names:array-method-ref-judged"));
+	ctx.floor("names: … in which the array class name changed", 1_000, nam.get("names:array-method-ref-class-changed"));
+	ctx.floor("names: answers of remapper_*_first_to_second judged", n_floor, nam.get("names:first-to-second-desc-judged") + nam.get("names:first-to-second-member-judged"));
+	ctx.floor("names: member answers of remapper_b_first_to_second judged", 1_000, nam.get("names:first-to-second-member-judged"));
+	ctx.floor("names: answers of ARemapperAsBRemapper judged", n_floor, nam.get("names:a-as-b-desc-judged") + nam.get("names:a-as-b-member-judged"));
+	ctx.floor("names: round trips checked (X→Y→X)", n_floor, nam.get("roundtrip:desc:identity-required"));
+	ctx.floor("shapes: members found at depth ≥ 4", 1_000, shp.get("shapes:found-at-depth>=4"));
+	ctx.floor("shapes: members found at depth ≥ 64", 100, shp.get("shapes:found-at-depth>=64"));
+	ctx.floor("shapes: members found at depth ≥ 256", 10, shp.get("shapes:found-at-depth>=256"));
+	ctx.floor("shapes: members found above an owner that declares an overload", 1_000, shp.get("shapes:found-above-an-owner-declaring-an-overload"));
+	ctx.floor("shapes: members answered by a nearer declaration with an unchanged name that shadows a renamed one", 1_000, shp.get("shapes:unchanged-name-shadows-a-renamed-one"));
+	ctx.floor("shapes: overloads found in a super type", 1_000, shp.get("shapes:overload-found-in-super"));
+	ctx.floor("shapes: members found in the third or a later direct super type", 1_000, shp.get("shapes:found-in-third-or-later-direct-super-type"));
+	ctx.floor("shapes: members found in an interface of a comb", 1_000, shp.get("shapes:comb-found-in-interface"));
+	ctx.floor("shapes: fallbacks", 1_000, shp.get("shapes:fallback"));
+	ctx.floor("shapes: round trips checked (X→Y→X)", 1_000, shp.get("roundtrip:member:identity-required"));
+
 	let mut all = Stats::new();
 	let mut samples: Vec<Value> = Vec::new();
 	let mut outcomes: BTreeMap<String, u64> = BTreeMap::new();
 	let mut distinct = 0u64;
-	for s in [&d, &mal, &inh, &tab] {
+	for s in [&d, &mal, &inh, &tab, &nam, &shp] {
 		all.evaluations += s.evaluations;
 		distinct += s.distinct.len();
 		for (k, v) in &s.outcomes {
@@ -138,21 +206,26 @@ fn main() {
 	let coverage = json!({
 		"evaluations": all.evaluations,
 		"distinct_nontrivial": distinct,
-		"rule": "one evaluation = one call of a real ARemapper/BRemapper method on a remapper built by the real Mappings::remapper_a / remapper_b. distinct_nontrivial = distinct rendered descriptor/class-name inputs whose answer differs from the input + distinct (super-type graph, owner, declaring class) triples in which a member was answered through a super type + distinct (table set, query) pairs answered with a changed name",
+		"rule": "one evaluation = one call of a real ARemapper/BRemapper method on a remapper built by the real Mappings::remapper_a / remapper_b. distinct_nontrivial = distinct rendered descriptor/class-name inputs whose answer differs from the input + distinct (super-type graph, owner, declaring class) triples in which a member was answered through a super type + distinct (table set, query) pairs answered with a changed name + distinct (name-alphabet input) descriptors whose answer differs from the input + distinct (shape, states, owner, declaring class) tuples answered through a class",
 		"exhaustive": true,
 		"samples": samples,
 		"outcomes": outcomes,
 		"bounds": {
 			"desc": d_bounds,
-			"malformed": {"alphabet": desc::MAL_ALPHABET.iter().collect::<String>(), "max_len": desc::MAL_LEN, "kinds": ["field", "method", "return", "arrclass"]},
+			"malformed": {"alphabet": desc::MAL_ALPHABET.iter().collect::<String>(), "max_len": desc::mal_len(ctx), "nesting_alphabet": desc::MAL_NEST_ALPHABET.iter().collect::<String>(), "nesting_exact_lengths": desc::mal_nest_lens(ctx), "kinds": ["field", "method", "return", "arrclass"]},
 			"inherit": inh_bounds,
 			"table": tab_bounds,
+			"names": nam_bounds,
+			"shapes": shp_bounds,
 		},
-		"engine_evaluations": {"desc": d.evaluations, "malformed": mal.evaluations, "inherit": inh.evaluations, "table": tab.evaluations},
-		"engine_wall_s": {"desc": t1 - t0, "malformed": t2 - t1, "inherit": t3 - t2, "table": t4 - t3},
+		"engine_evaluations": {"desc": d.evaluations, "malformed": mal.evaluations, "inherit": inh.evaluations, "table": tab.evaluations, "names": nam.evaluations, "shapes": shp.evaluations},
+		"engine_wall_s": {"desc": t1 - t0, "malformed": t2 - t1, "inherit": t3 - t2, "table": t4 - t3, "names": t5 - t4, "shapes": t6 - t5},
 	});
 	ctx.finish(coverage, &[
-		"class, field and method names are drawn from small alphabets (names containing L, $, /, non-ASCII, one character); other names are not covered",
+		"class, field and method names are drawn from explicit alphabets (desc: 7 slots; names: 34 shapes incl. JDK/library packages, descriptor letters, L, $, (, ), <>, 2/3/4-byte characters, 64 and 302 characters; five names with unpaired surrogates); other names are not covered",
+		"map_method_ref on an array class: no mapping set can name a member of an array class and no provider is asked about one, so the unchanged name is demanded (the statement's fallback)",
+		"ARemapperAsBRemapper has no member tables by design: for members the unchanged name is accepted next to the reference's answers; class names and descriptors are judged like every other remapper",
+		"member names of the names engine are rotated with the index of the set (covering, not the full product)",
 		"\"nearest declaring super type in declaration order\" is read both as depth-first in declaration order and as smallest distance first; where the two readings differ both answers are accepted",
 		"an entry that has a name in the source namespace but none in the target namespace may either end the search with the unchanged name or be skipped",
 		"for a found entry the descriptor may be the rewritten query descriptor or the entry's own descriptor carried to the target namespace (they differ only for classes without a source-namespace name)",
@@ -168,7 +241,10 @@ fn replay(ctx: &'static Ctx, path: &std::path::Path) -> ! {
 	let mut st = Stats::new();
 	let obs1;
 	let obs2;
-	if engine.starts_with("desc") {
+	if engine.starts_with("names") {
+		obs1 = names::replay_case(ctx, &head, &set, &mut st);
+		obs2 = names::replay_case(ctx, &head, &set, &mut Stats::new());
+	} else if engine.starts_with("desc") {
 		obs1 = desc::replay_case(ctx, &head, &set, &mut st);
 		obs2 = desc::replay_case(ctx, &head, &set, &mut Stats::new());
 	} else {
